@@ -67,7 +67,11 @@ Unit of time (fourth seeded round).  Multiplying every rate by c and dividing ev
    judged like every other case, by the exact law of the numbers they contain (signature suffix `:time-unit:2^k`); histories, forms,
    grids and chunking apply to them as to the others.  An absolute threshold on a rate (`np.allclose(rates, 0)`: a path frozen when every
    event rate is <= 1e-8, seeded C05-d1) or on a time shows in these cases; in the replay it is a path that stops although the modelled
-   step goes on (`step:append-vs-stop`).
+   step goes on (`step:stop-reason`, `draws:expo-count`);
+ * a scaled chain / SIR replay case is also run as its TWIN in unit time under the same numpy seed (`unit_twin`): the same states, event
+   times equal to the scaled ones times c EXACTLY (powers of two).  Path-by-path equivariance is what the pure step model gives
+   (`stepProbs_time_unit` for the choice, `exp_scale_mul` for the clocks), not what the property - a law - states: a difference is a
+   broken correspondence `replay:time-unit-twin-differs`, never a violation.
 All cells of a case share the case's level (a case with more requested times has more, narrower cells): the total false-alarm
 probability of a run is unchanged (ALPHA_TOTAL over chain + SIR + identity + parallel + boundary cases).
 """
@@ -88,7 +92,7 @@ LEAN = {"module": "Pygom.Props.C05",
         "required": ["Pygom.C05.min_of_indep_exp", "Pygom.C05.first_clock", "Pygom.C05.step_law", "Pygom.C05.exp_scale",
                      "Pygom.C05.model_step_is_first_min", "Pygom.C05.model_step_time", "Pygom.C05.model_step_law",
                      "Pygom.C05.model_choice_law", "Pygom.C05.firstMin_cast", "Pygom.C05.first_min_iff",
-                     "Pygom.C05.stepProbs_sum_to_one", "Pygom.C05.finalSizePMF_sums_to_one", "Pygom.C05.finalSizePMF_nonneg"]}
+                     "Pygom.C05.stepProbs_sum_to_one", "Pygom.C05.stepProbs_time_unit", "Pygom.C05.finalSizePMF_sums_to_one", "Pygom.C05.finalSizePMF_nonneg"]}
 BUDGET = {"quick": {"identity": 16, "pairs": 25, "law_draws": 20000, "seeded_draws": 1500, "replay": 48, "chain": 32, "sir": 16, "runs": 6000,
                     "par": 4, "par_runs": 500, "warm": 200, "boundary": 8, "boundary_runs": 40},
           "thorough": {"identity": 64, "pairs": 100, "law_draws": 200000, "seeded_draws": 6000, "replay": 640, "chain": 160, "sir": 80,
@@ -748,10 +752,45 @@ def run_replay(case):
                 tags.append("zero_rate_event_present")
         return True
 
-    SC.run_session(case, judge, "C05", tags, mism, viol, max_steps=case.get("max_steps", SC.MAX_STEPS))
+    calls = SC.run_session(case, judge, "C05", tags, mism, viol, max_steps=case.get("max_steps", SC.MAX_STEPS))
+    if case.get("time_unit") and not case.get("session") and calls and calls[0].tr.error is None:
+        unit_twin(case, calls[0], mism, tags)
     return {"nontrivial": state["accepted"] >= 5 and state["multi"] >= 1, "mismatches": mism[:8], "violations": viol, "tags": tags,
             "sample": {"kind": "replay", "model": case.get("model"), "x0": case["x0"], "accepted_steps": state["accepted"], "steps_with_2+_clocks": state["multi"],
                        "session": bool(case.get("session"))}}
+
+
+def unit_twin(case, call, mism, tags):
+    """a replay case stated in another unit of time (c a power of two) against its TWIN in unit time under the same numpy seed: the
+    same clocks are drawn, so the twin visits the same states and its event times are the scaled ones times c - exactly (scaling by a
+    power of two commutes with every rounding of rate = k x, scale = 1 / rate, E * scale, t + dt).  What the pure step model says of a
+    change of unit; the property (a law) does not state it path by path: a difference is a broken correspondence, not a violation."""
+    c = float(case["time_unit"])
+    ts = call.ts
+    if ts["kind"] not in ("float", "np_f64", "list1", "tuple1", "list", "tuple", "array"):
+        tags.append("time-unit-twin:not-run(integer-valued time argument)")
+        return
+    twin = dict(case, params={k: (float(v) / c if k != "N" else float(v)) for k, v in case["params"].items()},
+                sim=dict(case["sim"], t0=float(case["sim"]["t0"]) * c, T=float(case["sim"]["T"]) * c))
+    twin["sim"].pop("time", None)
+    t_ts = {"kind": ts["kind"], "values": [float(v) * c for v in ts["values"]]}
+    tr = SC.traced_run(SC.build_model(twin), SC.time_obj(t_ts), True, call.op["np_seed"], iterations=call.sim["iterations"], max_steps=case.get("max_steps", SC.MAX_STEPS))
+    tags.append("time-unit-twin")
+    if tr.error is not None or len(tr.jumps) != len(call.tr.jumps):
+        mism.append({"what": "replay:time-unit-twin-differs", "detail": "unit %s: the twin in unit time %s" % (unit_name(c), "raised %r" % tr.error if tr.error is not None else "made %d paths for %d" % (len(tr.jumps), len(call.tr.jumps)))})
+        return
+    for p, (a, b) in enumerate(zip(call.tr.jumps, tr.jumps)):
+        if a["truncated"] or b["truncated"]:
+            continue
+        if a["X"].shape != b["X"].shape or not np.array_equal(a["X"], b["X"]) or not np.array_equal(np.asarray(a["T"], float) * c, np.asarray(b["T"], float)):
+            k = 0
+            while k < min(len(a["T"]), len(b["T"])) and np.array_equal(a["X"][k], b["X"][k]) and float(a["T"][k]) * c == float(b["T"][k]):
+                k += 1
+            mism.append({"what": "replay:time-unit-twin-differs",
+                         "detail": "path %d, unit %s: %d records against %d in unit time; first difference at record %d: state %s at t * c = %r, twin state %s at t = %r"
+                                   % (p, unit_name(c), len(a["T"]), len(b["T"]), k, a["X"][k].tolist() if k < len(a["T"]) else None, float(a["T"][k]) * c if k < len(a["T"]) else None,
+                                      b["X"][k].tolist() if k < len(b["T"]) else None, float(b["T"][k]) if k < len(b["T"]) else None)})
+            return
 
 
 def json_key(d):
